@@ -988,6 +988,53 @@ def fam_real(tier, outdir):
         shutil.rmtree(root, ignore_errors=True)
 
 
+def fam_realstatus(tier, outdir):
+    """C01 on the real kernel: all 256 exit codes and 23 terminating signals with real children; records validated by TLC."""
+    import tempfile
+    t0 = time.time()
+    d = tempfile.mkdtemp(prefix="vrs_")
+    try:
+        repo = vlib.REPO
+        r1 = subprocess.run(["gcc", "-O1", "-w", '-DDUMPDIR="%s"' % d, os.path.join(vlib.HARNESS, "real/vchild.c"), "-o", d + "/vchild"], capture_output=True, text=True)
+        r2 = subprocess.run(["gcc", "-std=gnu99", "-O1", "-g", "-DNDEBUG", "-DREPROC_MULTITHREADED", "-w", "-I" + os.path.join(repo, "reproc/include"),
+                             "-I" + os.path.join(repo, "reproc/src"), os.path.join(vlib.HARNESS, "real/realstatus.c")] + vlib.lib_sources(repo) +
+                            ["-Wl,--wrap=waitpid,--wrap=kill", "-lpthread", "-o", d + "/realstatus"], capture_output=True, text=True)
+        if r1.returncode or r2.returncode:
+            raise Infra("realstatus does not compile:\n" + r1.stderr[-800:] + r2.stderr[-1500:])
+        bad = []
+        try:
+            p = subprocess.run([d + "/realstatus", d + "/vchild"], capture_output=True, text=True, timeout=300)
+            recs = [json.loads(l) for l in p.stdout.splitlines() if l.startswith("{")]
+            if p.returncode != 0:
+                bad.append({"ok": 0, "kind": "crash", "fn": "wait", "status": p.returncode, "call": {"fn": "wait"}, "obs": {"stderr": p.stderr[-500:]}, "script": None})
+        except subprocess.TimeoutExpired:
+            recs = []
+            bad.append({"ok": 0, "kind": "hang", "fn": "wait", "call": {"fn": "wait", "real": 1}, "obs": {"blocked_in": "real-kernel status sweep timed out"}, "script": None})
+        tf = os.path.join(outdir, "realstatus.ndjson")
+        open(tf, "w").write("\n".join(json.dumps(r) for r in recs) + "\n")
+        states = 0
+        if recs:
+            env = dict(os.environ); env["TRACE"] = tf
+            meta = os.path.join(outdir, "m_rs")
+            r = subprocess.run(["java", "-cp", vlib.TLA_CP, "tlc2.TLC", "-workers", "1", "-metadir", meta, "-config", os.path.join(SPEC, "RealStatus.cfg"),
+                                os.path.join(SPEC, "RealStatus.tla")], capture_output=True, text=True, cwd=SPEC, env=env)
+            shutil.rmtree(meta, ignore_errors=True)
+            if "No error has been found" not in r.stdout:
+                raise Infra("RealStatus validation did not complete:\n" + r.stdout[-1500:])
+            states = parse_tlc_stats(r.stdout)["states"]
+            vl = [l for l in r.stdout.splitlines() if l.startswith('<<"VERDICT"')]
+            rejected = unescape_beh((vl[0].replace('<<"VERDICT", "', '<<"BEH", "') + "\n").encode())
+            byid = {x["id"]: x for x in recs}
+            for rj in rejected:
+                rec = byid[rj["id"]]
+                bad.append({"ok": 0, "kind": "contract", "fn": "wait", "why": ["C01:" + w for w in sorted(rj["why"])] + (["C06:signal-after-reap"] if "signal-after-reap" in rj["why"] else []),
+                            "call": {"fn": "wait", "scenario": "real child %s %d" % (rec["kind"], rec["n"]), "faults": []}, "obs": rec, "script": rec})
+        return {"family": "realstatus", "tlc": {"states": states, "transitions": states, "depth": len(recs)}, "scripts": len(recs), "replayed": len(recs),
+                "ok": len(recs) - len(bad), "bad": bad, "samples": recs[:2], "wall_tlc": time.time() - t0, "asan_replayed": 0, "replay_stride": 1}
+    finally:
+        shutil.rmtree(d, ignore_errors=True)
+
+
 def fam_destroy(tier, outdir):
     consts = {"Handles": "{1}", "MaxTime": 5, "MaxCalls": 4, "PipeCap": 4, "MaxOut": 0, "ExitCodes": "{3}", "TermDelay": 1,
               "DlOpts": "{0, 2}", "Timeouts": "{0, 2}", "ThirdActs": '"Small"', "StrictFailedStart <- Loose": None}
@@ -1047,11 +1094,11 @@ def run_tlc_plain(name, module, cfgpath, outdir, timeout=1500, workers=8):
     return st
 
 
-FAMILIES = {"real": fam_real, "optprod": fam_optprod, "free": fam_free, "env2": lambda t, o: fam_launch("env2", t, o), "two": fam_two, "restart": fam_restart, "threads": fam_threads, "conc": fam_conc, "wincmd": fam_wincmd, "wrapper": fam_wrapper, "faults": fam_faults, "env": lambda t, o: fam_launch("env", t, o), "wiring": lambda t, o: fam_launch("wiring", t, o), "options": lambda t, o: fam_launch("options", t, o),
+FAMILIES = {"realstatus": fam_realstatus, "real": fam_real, "optprod": fam_optprod, "free": fam_free, "env2": lambda t, o: fam_launch("env2", t, o), "two": fam_two, "restart": fam_restart, "threads": fam_threads, "conc": fam_conc, "wincmd": fam_wincmd, "wrapper": fam_wrapper, "faults": fam_faults, "env": lambda t, o: fam_launch("env", t, o), "wiring": lambda t, o: fam_launch("wiring", t, o), "options": lambda t, o: fam_launch("options", t, o),
             "destroy": fam_destroy, "status": fam_status, "run": fam_run, "stop": fam_stop, "life": fam_life, "poll": fam_poll, "stream": fam_stream, "drain": fam_drain}
 
 PROPS = {
-    "C01": {"families": ["status", "stop", "two", "free"], "title": "exit status exact, stable, reaped once"},
+    "C01": {"families": ["status", "realstatus", "stop", "two", "free"], "title": "exit status exact, stable, reaped once"},
     "C06": {"families": ["stop", "faults", "two"], "title": "only the own unreaped child is signalled or waited for"},
     "C07": {"families": ["stop", "free"], "title": "stop sequences"},
     "C03": {"families": ["env", "env2", "real"], "title": "launch fidelity: argv, environment, working directory, program resolution"},
